@@ -11,6 +11,9 @@ import (
 
 type AllOf struct {
 	schemaName []string
+
+	// list is true if the value was written as an array (of any length).
+	list bool
 }
 
 var (
@@ -49,6 +52,12 @@ func (c *AllOf) Append(scalar bytes.Bytes) {
 	c.schemaName = append(c.schemaName, s.String())
 }
 
+// SetList records that the value of the rule was written as an array, so that
+// the AST shows a one-item array as an array and not as a single reference.
+func (c *AllOf) SetList() {
+	c.list = true
+}
+
 func (c AllOf) SchemaNames() []string {
 	return c.schemaName
 }
@@ -56,7 +65,7 @@ func (c AllOf) SchemaNames() []string {
 func (c AllOf) ASTNode() jschema.RuleASTNode {
 	const source = jschema.RuleASTNodeSourceManual
 
-	if len(c.schemaName) == 1 {
+	if len(c.schemaName) == 1 && !c.list {
 		return newRuleASTNode(jschema.TokenTypeShortcut, c.schemaName[0], source)
 	}
 
